@@ -36,14 +36,16 @@ mod vharness {
     /// RFC 8259 section 7: a string body character is any code point except the quote, the backslash and
     /// the control characters U+0000..U+001F, which MUST be escaped
     fn raw<const N: usize, const M: usize>() {
-        // M = N + 2: quote, the N bytes of one character, quote
+        // M = N + 2: quote, the N bytes of one character, quote.  No loops in the harness itself: the global
+        // unwinding bound is then only what the lexer's own loop needs (character, closing quote, exit = 3)
         let mut input = [b'"'; M];
-        let mut i = 0; while i < N { input[1 + i] = kani::any(); i += 1; }
-        kani::assume(one_char(&input[1..], N));
+        let c: [u8; 4] = [kani::any(), kani::any(), kani::any(), kani::any()];
+        input[1] = c[0]; if N >= 2 { input[2] = c[1]; } if N >= 3 { input[3] = c[2]; } if N >= 4 { input[4] = c[3]; }
+        kani::assume(one_char(&c, N));
         let text = unsafe { core::str::from_utf8_unchecked(&input[..]) };
         let mut lx = Lexer { line: 0, column: 0, rem: text };
         let r = lx.lex_string();
-        let b0 = input[1];
+        let b0 = c[0];
         if N == 1 && b0 < 0x20 {
             assert!(matches!(r, Err(ParseError { kind: ParseErrorKind::InvalidChrInString, .. })), "C20:jsonlex:raw-control-character-in-a-string-is-rejected");
         } else if N == 1 && b0 == b'"' {
@@ -52,7 +54,11 @@ mod vharness {
             assert!(r.is_err(), "C20:jsonlex:lone-backslash-is-rejected");
         } else {
             match r {
-                Ok(Some(s)) => { assert!(same(s.as_bytes(), &input[1..1 + N]), "C20:jsonlex:unescaped-character-is-kept-exactly"); assert!(lx.rem.is_empty() && lx.column == 3, "C20:jsonlex:string-is-consumed-to-its-closing-quote-columns-count-characters"); }
+                Ok(Some(s)) => {
+                    let g = s.as_bytes();
+                    assert!(g.len() == N && g[0] == c[0] && (N < 2 || g[1] == c[1]) && (N < 3 || g[2] == c[2]) && (N < 4 || g[3] == c[3]), "C20:jsonlex:unescaped-character-is-kept-exactly");
+                    assert!(lx.rem.is_empty() && lx.column == 3, "C20:jsonlex:string-is-consumed-to-its-closing-quote-columns-count-characters");
+                }
                 _ => assert!(false, "C20:jsonlex:every-other-character-is-accepted-unescaped"),
             }
         }
@@ -68,11 +74,11 @@ mod vharness {
     fn json_string_raw_char_2() { raw::<2, 4>(); }
     //@harness props=C20,C05,C01 strength=proof clause="std.parseJson string lexer on one raw 3-byte character, EVERY well-formed 3-byte UTF-8 sequence: accepted and kept exactly, one column" replay=json_raw_char
     #[kani::proof]
-    #[kani::unwind(5)]
+    #[kani::unwind(4)]
     fn json_string_raw_char_3() { raw::<3, 5>(); }
     //@harness props=C20,C05,C01 strength=proof clause="std.parseJson string lexer on one raw 4-byte character, EVERY well-formed 4-byte UTF-8 sequence: accepted and kept exactly, one column" replay=json_raw_char
     #[kani::proof]
-    #[kani::unwind(6)]
+    #[kani::unwind(4)]
     fn json_string_raw_char_4() { raw::<4, 6>(); }
 
     //@harness props=C20,C05,C01 strength=proof clause="std.parseJson single-character escapes, EVERY ASCII byte after the backslash: \\\" \\\\ \\/ \\b \\f \\n \\r \\t decode to exactly the RFC 8259 characters; every other byte (incl. the apostrophe, which JSON does not allow) is an InvalidStringEscape error"
@@ -111,7 +117,7 @@ mod vharness {
         else { buf[*n] = 0xF0 | (cp >> 18) as u8; buf[*n + 1] = 0x80 | ((cp >> 12) & 0x3F) as u8; buf[*n + 2] = 0x80 | ((cp >> 6) & 0x3F) as u8; buf[*n + 3] = 0x80 | (cp & 0x3F) as u8; *n += 4; }
     }
 
-    //@harness props=C20,C05,C01 strength=proof tier=thorough clause="std.parseJson on two adjacent \\uXXXX escapes, for EVERY pair of 16-bit code units and either hex-digit case (RFC 8259 section 7): a non-surrogate unit is that code point and the next escape is decoded independently; a high surrogate followed by a low surrogate is the one supplementary code point; every other surrogate combination is rejected; every VALID document of this shape is accepted" timeout=1200 replay=json_unicode_pair
+    //@harness props=C20,C05,C01 strength=proof clause="std.parseJson on two adjacent \\uXXXX escapes, for EVERY pair of 16-bit code units and either hex-digit case (RFC 8259 section 7): a non-surrogate unit is that code point and the next escape is decoded independently; a high surrogate followed by a low surrogate is the one supplementary code point; every other surrogate combination is rejected; every VALID document of this shape is accepted" timeout=1200 replay=json_unicode_pair
     #[kani::proof]
     #[kani::unwind(4)]
     fn json_string_unicode_escape_pair() {
